@@ -136,10 +136,11 @@ structure Parsed where
   args : List Int
   lib : Lib
   ann : List (Nat × List (List Raw))
+  whole : List (List (Nat × String)) := []   -- wrap: per Segment, the clusters of the whole text (id, hex)
 
 def parseOp? (op : String) : Option Parsed := do
   match fields op with
-  | kind :: caps :: dims :: chain :: args :: lib :: ann :: _ =>
+  | kind :: caps :: dims :: chain :: args :: lib :: ann :: tail =>
       let (uc, ew) ← match caps.toList with
         | [a, b] => some (a == '1', b == '1')
         | _ => none
@@ -151,7 +152,13 @@ def parseOp? (op : String) : Option Parsed := do
       let args ← if args = "-" then some [] else ints? args
       let lib ← parseLib lib
       let ann ← parseAnn? ann
-      some { kind, uc, ew, sw, sh, wins, args, lib, ann }
+      let whole : List (List (Nat × String)) := match tail with
+        | [_, w] => (w.splitOn "|").map fun sg =>
+            if sg = "-" then [] else (sg.splitOn ",").filterMap fun e => match e.splitOn ":" with
+              | [i, h] => i.toNat?.map fun n => (n, h)
+              | _ => none
+        | _ => []
+      some { kind, uc, ew, sw, sh, wins, args, lib, ann, whole }
   | _ => none
 
 def flat1 (ann : List (Nat × List (List Raw))) : List (Nat × List Raw) :=
@@ -277,6 +284,17 @@ def spillVerdict (p : Parsed) (win : Win) (s : Screen) (cells : List (Int × Int
           s!"FAIL spill-literal {p.kind}: the cluster of width {w} placed at {x},{y} is displayed up to column {xo}, outside an ancestor that the struct-literal window reaches beyond"
     | none => "ok"
 
+/-- "Never splitting a cluster across cells": the clusters `Wrap` takes from its line segments must
+    be the clusters of the Segment's text.  Returns the first cluster of a text that Wrap divides. -/
+def splitCluster (p : Parsed) : Option (Nat × String) :=
+  if p.kind ≠ "wrap" ∨ p.whole.length ≠ p.ann.length then none else
+  let rec firstDiff : List Nat → List (Nat × String) → Option String
+    | a :: as, (b, h) :: bs => if a = b then firstDiff as bs else some h
+    | [], (_, h) :: _ => some h
+    | _, [] => none
+  ((List.range p.ann.length).zip (p.ann.zip p.whole)).findSome? fun (k, (sg, w)) =>
+    (firstDiff (sg.2.flatten.map (·.g)) w).map fun h => (k, h)
+
 def verdict (p : Parsed) (impl : Impl) : String :=
   match chainOfGeoms impl.geoms with
   | none => "FAIL unreadable geometry"
@@ -302,7 +320,10 @@ def verdict (p : Parsed) (impl : Impl) : String :=
         let want := Spec.Window.expected win s ops
         if impl.cells ≠ want then s!"FAIL placement {p.kind}: {firstDiff impl.cells want}"
         else if ["print", "wrap", "println", "trunc"].contains p.kind then
-          spillVerdict p win s impl.cells
+          match spillVerdict p win s impl.cells, splitCluster p with
+          | "ok", some (k, h) =>
+              s!"FAIL split wrap: the cluster {h} of segment {k} is divided among several cells (a line segment ends inside it)"
+          | v, _ => v
         else "ok"
 
 def charsStr (l : List Chr) : String :=
